@@ -157,15 +157,21 @@ func writeStep(c *Case, shared kit.AnyBuf, code, w, k int) {
 	s, e := c.Bounds[w], c.Bounds[w+1]
 	win := shared.Slice(s, e)
 	fr := e - s
-	if fr == 0 {
-		return
-	}
 	val := func(i int) kit.Val { return kit.IV(int64(1 + (w*37+k*11+i)%110)) }
+	// inputs are sometimes longer than the window (and never empty for an empty window): whatever
+	// is offered, a writer's effects must stay inside its own frame range
+	long := 0
+	if k%3 == 1 || fr == 0 {
+		long = 2
+	}
+	if op := code % nWriteOps; fr == 0 && op != 1 && op != 2 && op != 3 {
+		return // nothing to address in an empty window
+	}
 	switch code % nWriteOps {
 	case 0:
 		win.Set((k*5)%(C*fr), val(0))
 	case 1:
-		vs := make([]kit.Val, C*fr-k%2)
+		vs := make([]kit.Val, kit.Max(C*(fr+long)-k%2, 0))
 		for i := range vs {
 			vs[i] = val(i)
 		}
@@ -176,7 +182,7 @@ func writeStep(c *Case, shared kit.AnyBuf, code, w, k int) {
 			if (ch+k)%3 == 2 {
 				continue
 			}
-			in[ch] = make([]kit.Val, fr)
+			in[ch] = make([]kit.Val, fr+long*((ch+k)%2))
 			for i := range in[ch] {
 				in[ch][i] = val(ch*3 + i)
 			}
@@ -184,7 +190,7 @@ func writeStep(c *Case, shared kit.AnyBuf, code, w, k int) {
 		win.WriteStripedVals(in)
 	case 3: // conversion destination, from a private source
 		pt := partner(c.T)
-		src := kit.AllocAny(pt, signal.Allocator{Channels: C, Length: fr, Capacity: fr})
+		src := kit.AllocAny(pt, signal.Allocator{Channels: C, Length: fr + long, Capacity: fr + long})
 		for i := 0; i < src.Len(); i++ {
 			if kit.Info(pt).Kind == kit.Float {
 				src.Set(i, kit.FV(float64((w+k+i)%9-4)/8))
